@@ -129,6 +129,20 @@ def rule_signature(ctx, mod, table, all_keys):
                   "signature numbers %s -7..7 are not all rejected with RangeError: %r" % (label, paths))
 
 
+    # a signature number written as a float: the number it equals is answered (or it is refused with the range error),
+    # never another exception
+    for num, want in ((1.0, table[8]), (-7.0, table[0]), (0.0, table[7]), (7.0, table[14]), (8.0, None), (-8.0, None)):
+        paths = paths_of(ctx.repo, fk, [num])
+        p = _single(paths)
+        got = None if p is None else (p.kind, tuple(p.value) if isinstance(p.value, (list, tuple)) else p.value)
+        if want is None:
+            ok = got == ("raise", "RangeError")
+        else:
+            ok = got in (("return", tuple(want)), ("raise", "RangeError"))
+        ctx.check(ok, R, "get_key[%r]" % num, fk.where(), "get_key(%r)" % num,
+                  "get_key(%r) gives %s; expected %s" % (num, got, "RangeError" if want is None else "%r (or RangeError)" % (tuple(want),)))
+
+
 def _malformed(table):
     heads = {k[0] for row in table for k in row}
     other = nd.other_class(heads, "FOREIGN")
